@@ -45,6 +45,10 @@ def _random_points_if_n_eq_1(main_domain, domain_a, domain_b, params, invert, de
         new_points = domain_a.sample_random_uniform(n=1, params=params, device=device)
         index_valid = _check_in_b(domain_b, params, invert, new_points)
         found_valid[index_valid] = True
+        # the proposals have the dtype of the parameters (e.g. float64), keep it
+        final_points = final_points.to(
+            torch.promote_types(final_points.dtype, new_points.as_tensor.dtype)
+        )
         final_points[index_valid] = new_points.as_tensor[index_valid]
     return Points(final_points, main_domain.space)
 
@@ -171,6 +175,10 @@ def _random_boundary_points_if_n_eq_1(main_domain, domain_a, domain_b, params, d
         index_valid = torch.logical_and(index_valid, torch.logical_not(found_valid))
         index_valid = torch.where(index_valid)[0]
         found_valid[index_valid] = True
+        # the proposals have the dtype of the parameters (e.g. float64), keep it
+        final_points = final_points.to(
+            torch.promote_types(final_points.dtype, new_points.as_tensor.dtype)
+        )
         final_points[index_valid] = new_points.as_tensor[index_valid]
         use_b = not use_b
     return Points(final_points, main_domain.space)
